@@ -227,6 +227,28 @@ theorem state_fork_invariant (c : Schedule) (spe : UInt64) (n : Nat)
   have := run c spe n hmono hs hn hwrap hE n 0 (by omega)
   simpa using this
 
+/-- **The versions recorded in the state name the same fork as the configuration.** `Fork.GetDomain` (the
+lookup every signature check of the transition uses: `common.GetDomain(state, domainType, epoch)`) applied
+to the fork record the chain has after `n` slots (`state_fork_invariant`) selects, for a message of epoch
+`e`, the version of `forkAt c e` — the version `Spec.ForkVersion` reports for the slots of that epoch
+(`forkVersion_eq_forkAt`) — for every epoch from the activation epoch of the preceding fork up to the
+state's own epoch; in particular at the fork epoch itself it is already the new version, and one epoch
+before it is still the old one. (Epochs before the preceding fork are out of the record's reach by
+construction: a fork record holds two versions.) -/
+theorem stateDomain_eq_forkAt (c : Schedule) (spe : UInt64) (n : Nat)
+    (hmono : c.Monotone) (hspe : spe ≠ 0) (hn : n < 2 ^ 64)
+    (hwrap : ∀ f : Fork, (c.epochOf f * spe.toNat) % 2 ^ 64 ≤ n → c.epochOf f * spe.toNat < 2 ^ 64)
+    (hpre : n / spe.toNat < c.electraEpoch.toNat)
+    (e : UInt64) (hup : e.toNat ≤ n / spe.toNat)
+    (hlo : forkAt c (n / spe.toNat) = forkAt c 0 ∨ c.epochOf (forkAt c (n / spe.toNat)).pred ≤ e.toNat)
+    (H : ByteArray → ByteArray) (domainType gvr : ByteArray) :
+    ∃ s, processSlots genUpgrade genSupported c spe n (genesisStateOf c) = .ok s ∧
+      domainVersion s e = versionAt c e.toNat ∧
+      computeDomain H domainType (domainVersion s e) gvr = computeDomain H domainType (versionAt c e.toNat) gvr := by
+  refine ⟨specState c spe n, (state_fork_invariant c spe n hmono hspe hn hwrap hpre).1, ?_, ?_⟩
+  · exact stateDomain_eq_forkAt_aux c hmono spe n e hup hlo
+  · rw [stateDomain_eq_forkAt_aux c hmono spe n e hup hlo]; rfl
+
 /-- the phase0 genesis zrnt builds (`GenesisFromEth1` / `KickStartState`) is the right genesis exactly when
 Altair is not scheduled at epoch 0 -/
 theorem phase0_genesis_is_right (c : Schedule) (hmono : c.Monotone) (hgen : c.altairEpoch ≠ 0) :
@@ -274,6 +296,12 @@ example :
     specState c 8 7 = { ty := .bellatrix, prev := 0xb2, cur := 0xb2, epoch := 0, slot := 7 } ∧
     specState c 8 8 = { ty := .capella, prev := 0xb2, cur := 0xb3, epoch := 1, slot := 8 } := by
   decide
+
+/-- non-vacuity: on the example schedule at slot 37 (Deneb since epoch 4, Capella since 2): epochs 2, 3 use
+the Capella version, epoch 4 the Deneb version -/
+example : domainVersion (specState exampleSchedule 8 37) 3 = 0xb3 ∧ domainVersion (specState exampleSchedule 8 37) 4 = 0xb4 ∧
+    domainVersion (specState exampleSchedule 8 37) 2 = 0xb3 ∧
+    exampleSchedule.epochOf (forkAt exampleSchedule (37 / 8)).pred ≤ 2 := by decide
 
 /-! ## Constants -/
 
